@@ -4,6 +4,11 @@ Protocol (see lean/Operon/Drv/C20.lean).  Gene names travel as naturals n (Pytho
 natural codes (VALS below).  The approval callback and the random pass of `replicate` are the environment:
 the `adv` line fixes the approval function, `random.random` is pinned to 0.5 while `replicate` runs (with
 mutation_rate 1.0 this makes the random pass attempt the identity mutation on every int-valued gene).
+
+`setallow` / `setcb` / `setrate` ASSIGN to the public attributes `allow_mutations` / `on_mutation` / `mutation_rate`
+of a live genome (truthy / falsy objects of several types, callback objects, rates of several numeric types); the
+oracle judges every call by the settings in force at the moment of the call (read from the live attributes in the
+snapshot taken just before it) and only counts an approval given by the callback installed at that moment.
 """
 from __future__ import annotations
 
@@ -182,12 +187,16 @@ class C20(Prop):
         + ["rollback:allow:1", "rollback:allow:0", "rollback:nocb:0", "rollback:cb:0", "rollback:cb:1",
            "rollback:cb:raise"]
         + ["replicate:allow:ok", "replicate:nocb:ok", "replicate:cb:ok", "replicate:cb:raise"]
+        + ["assign:allow:0", "assign:allow:1", "assign:cb:none", "assign:cb:some", "assign:rate:0", "assign:rate:1"]
     )
     assumptions = [
         "get_hash is injective on the name-sorted (name, value) list for the values explored (md5 prefix of its JSON); "
         "the model carries that list and the harness compares hash EQUALITY patterns, never hash strings",
         "approval callbacks return (anything truthy/falsy) or raise; they do not re-enter the genome and do not "
         "tamper with the Mutation record they are shown",
+        "the public attributes allow_mutations / on_mutation / mutation_rate may be re-assigned at any time (Op.assign); "
+        "authorisation is judged by the settings in force at the moment of each call (CallsUnder); `silent` and private "
+        "attributes are not assigned",
         "the random pass of replicate is environment: random.random is pinned to 0.5 while replicate runs "
         "(mutation_rate 1.0 then attempts the identity mutation on every int-valued gene); the theorems hold for "
         "every draw function",
@@ -249,8 +258,9 @@ class C20(Prop):
             ctxpool = [rng.choice(["none", "-"])] + [
                 ",".join(str(x) for x in rng.sample(names, min(k_, len(names)))) or "-" for k_ in (1, 2)]
             sandwich = rng.random() < 0.5       # express before/after changes, same and different context sets
+            reconfig = rng.random() < 0.45      # public gate attributes re-assigned on live genomes
             for _ in range(nroots):
-                allow = rng.random() < 0.25
+                allow = rng.random() < (0.5 if reconfig else 0.25)
                 cb = rng.choice(["none", "0", "0", "0", "1"])
                 rate = rng.random() < 0.2
                 gl = [self._gene(rng, nm) for nm in names if rng.random() < 0.9]
@@ -296,6 +306,29 @@ class C20(Prop):
                 r = rng.random()
                 if sandwich and rng.random() < 0.6:
                     lines.append(f"express {i} {rng.choice(ctxpool)}")
+                if reconfig and rng.random() < 0.3:
+                    # assign to a public attribute (mostly: lock / revoke / swap the reviewer), usually on a genome
+                    # that was just mutated, and follow up with a mutate / rollback / re-add / replicate on it
+                    if recent and rng.random() < 0.7:
+                        i, nm = rng.choice(recent[-3:])
+                    for _k in range(rng.choice([1, 1, 1, 2])):
+                        lines.append(rng.choice([f"setallow {i} 0", f"setallow {i} 0", f"setallow {i} 1",
+                                                 f"setcb {i} none", f"setcb {i} none", f"setcb {i} 0", f"setcb {i} 1",
+                                                 f"setcb {i} 2", f"setcb {i} 3", f"setrate {i} {rng.randint(0, 1)}"]))
+                    f_ = rng.random()
+                    if f_ < 0.35:
+                        v_ = pick_val()
+                        lines.append(f"mutate {i} {nm} {v_}")
+                        known.setdefault(nm, []).append(v_)
+                        recent.append((i, nm))
+                    elif f_ < 0.6:
+                        lines.append(f"rollback {i} {nm}")
+                    elif f_ < 0.7:
+                        lines.append(f"add {i} {readd(nm)}")
+                    elif f_ < 0.8:
+                        lines.append(f"replicate {i} {rng.randint(0, 1)} {nm}:{pick_val()}")
+                        recent.append((count, nm))
+                        count += 1
                 if r < 0.27:
                     v_ = pick_val()
                     lines.append(f"mutate {i} {nm} {v_}")
@@ -343,7 +376,8 @@ class C20(Prop):
                     lines.append(f"express {i} {rng.choice(ctxpool)}")
                     if rng.random() < 0.3:
                         lines.append(f"express {rng.randrange(count)} {rng.choice(ctxpool)}")
-            yield {"lines": lines, "note": "random" + (" (express before/after every change)" if sandwich else "")}
+            yield {"lines": lines, "note": "random" + (" (express before/after every change)" if sandwich else "")
+                   + (" (public attributes re-assigned)" if reconfig else "")}
 
     def _scripted(self, rng):
         """every gate decision comes from the script (approve / refuse / raise), on one gene of one lineage"""
@@ -355,8 +389,11 @@ class C20(Prop):
             r = rng.random()
             if r < 0.4:
                 lines.append(f"mutate {i} {rng.choice('001')} {rng.choice([3, 5, 7])}")
-            elif r < 0.75:
+            elif r < 0.7:
                 lines.append(f"rollback {i} 0")
+            elif r < 0.8:
+                lines.append(rng.choice([f"setcb {i} none", f"setcb {i} 0", f"setcb {i} 1", f"setallow {i} 1",
+                                         f"setallow {i} 0"]))
             else:
                 lines.append(f"replicate {i} 1 " + rng.choice(["0:7", "0:7,1:5", "-", "1:5"]))
                 count += 1
@@ -365,7 +402,9 @@ class C20(Prop):
     def _malformed(self, rng):
         junk = ["mutate", "mutate 0", "mutate x 1 2", "add 0 1:2:z:0:2", "add 0 1:2:s:0:9", "expr 0 0 7", "frob 1 2",
                 "replicate 0 1 1;2", "express 0 a,b", "new 0 zz 0", "rollback 0", "getv 5 0", "mutate 9 0 1",
-                "replicate 7 1 -", "express 4 -", "adv 1:q -"]
+                "replicate 7 1 -", "express 4 -", "adv 1:q -",
+                "setallow 0 2", "setallow 0", "setcb 0 x", "setallow 9 1", "setcb 7 none", "setrate 0 yes", "setrate 0 1",
+                "setcb 0 none", "setallow 0 1"]
         lines = ["adv 0:* -", "new 0 0 0 0:1:s:0:2 1:2:c:0:2"]
         for _ in range(rng.randint(2, 6)):
             lines.append(rng.choice(junk) if rng.random() < 0.6 else rng.choice(
@@ -419,6 +458,25 @@ class C20(Prop):
                                    "note": f"exhaustive expression wrappers on a child, initial level {l0}, inherit {inh}"})
         spaces.append({"name": f"all sequences of <= {3 if tier == 'quick' else 4} expression operations (silence/activate/set_expression/express) on one "
                                "gene x 5 initial levels, and of <= 3 on a child x inherit on/off", "cases": cW})
+        # public attributes re-assigned on a live genome (open -> lock, reviewer revoked / swapped, lock -> open), then
+        # every mutating entry point on it and on a child made before / after
+        alphaG = ["setallow 0 0", "setallow 0 1", "setcb 0 none", "setcb 0 1", "mutate 0 0 7", "rollback 0 0",
+                  "replicate 0 1 0:7", "mutate 1 0 7", "add 0 0:9:d:0:0"]
+        dG = 3 if tier == "quick" else 4
+        cG = []
+        # open without reviewer | reviewer 0 approves g0 := 7 | 1 and reviewer 1 the rest | locked, random pass on
+        for a, nw in [("0:7,0:1 -", "new 1 none 0 0:1:s:1:2 1:2:c:0:3"),
+                      ("0:7,0:1 -", "new 0 0 0 0:1:s:1:2 1:2:c:0:3"),
+                      ("0:* -", "new 0 none 1 0:1:s:1:2 1:2:c:0:3")]:
+            for k in range(1, dG + 1):
+                for ops in itertools.product(alphaG, repeat=k):
+                    if not any(o.startswith("set") for o in ops):
+                        continue
+                    cG.append({"lines": [f"adv {a}", nw, "mutate 0 0 7"] + list(ops) + ["mutate 0 0 1", "rollback 0 0"],
+                               "note": f"exhaustive attribute assignment depth {k}"})
+        spaces.append({"name": f"all histories of depth <= {dG} with at least one assignment over a 9-operation "
+                               "setallow/setcb/mutate/rollback/replicate/re-add alphabet, between an initial mutate and a "
+                               "final mutate + rollback x 3 gate configurations", "cases": cG})
         if tier != "quick":
             # depth 5 on the operations that interact through the log (approve / refuse / rollback / replicate)
             alpha5 = ["mutate 0 0 7", "mutate 0 0 5", "mutate 0 1 8", "rollback 0 0", "replicate 0 1 0:7",
@@ -532,6 +590,18 @@ class C20(Prop):
                         rows = {ncode(k_): f"{ncode(k_)}:{sh(a_, g.get_gene(k_) is None)}/{sh(b_, other.get_gene(k_) is None)}"
                                 for k_, (a_, b_) in d_.items()}
                         res = "diff [" + ",".join(v_ for _, v_ in sorted(rows.items(), key=lambda kv: _num(kv[0]))) + "]"
+                    elif kind == "setallow":
+                        # any truthy / falsy object: the code tests `not self.allow_mutations`
+                        k_ = w.nassign = getattr(w, "nassign", 0) + 1
+                        g.allow_mutations = [True, 1, "yes"][k_ % 3] if parsed[2] else [False, 0, None, ""][k_ % 4]
+                        res = "ok"
+                    elif kind == "setcb":
+                        g.on_mutation = None if parsed[2] is None else w.cb(parsed[2])
+                        res = "ok"
+                    elif kind == "setrate":
+                        k_ = w.nassign = getattr(w, "nassign", 0) + 1
+                        g.mutation_rate = [1.0, 1, 0.75][k_ % 3] if parsed[2] else [0.0, 0, -1.0][k_ % 3]
+                        res = "ok"
                     elif kind == "getv":
                         sentinel = object()
                         v = g.get_value(gname(parsed[2]), sentinel)
@@ -570,6 +640,12 @@ class C20(Prop):
             return ("mutate", nat(t[1]), nat(t[2]), nat(t[3]))
         if op in ("rollback", "silence", "activate", "getv") and len(t) == 3:
             return (op, nat(t[1]), nat(t[2]))
+        if op in ("setallow", "setrate") and len(t) == 3:
+            if t[2] not in ("0", "1"):
+                return None
+            return (op, nat(t[1]), t[2] == "1")
+        if op == "setcb" and len(t) == 3:
+            return ("setcb", nat(t[1]), None if t[2] == "none" else nat(t[2]))
         if op in ("validate", "list") and len(t) == 2:
             return (op, nat(t[1]))
         if op == "diff" and len(t) == 3:
@@ -622,7 +698,8 @@ class C20(Prop):
                 for j, c in enumerate(pending):
                     if c["gene"] == n and c["new"] == v:
                         del pending[:j + 1]
-                        return c["ans"] == "approve"
+                        # "an approval callback approves": the one installed on that genome at that moment
+                        return c["ans"] == "approve" and str(c["cb"]) == s["cb"]
                 return False
 
             # (A) no stored value / hash changes without authorisation; operations touch only their own genome
@@ -641,7 +718,8 @@ class C20(Prop):
                                 V("unauthorised_change", f"re-adding gene {n} refused (mutations disabled)",
                                   f"{b['genes'][n]} -> {a['genes'][n]}", idx)
                         elif a["genes"][n] != dict(b["genes"][n], value=av[n]) or not (b["allow"] or any(
-                                c["gene"] == n and c["new"] == av[n] and c["ans"] == "approve" for c in calls)):
+                                c["gene"] == n and c["new"] == av[n] and c["ans"] == "approve" and str(c["cb"]) == b["cb"]
+                                for c in calls)):
                             V("unauthorised_change", f"gene {n} of genome {gid} stays {v} (no authorisation for "
                               f"{av[n]})", f"{b['genes'][n]} -> {a['genes'][n]}", idx)
                 if not mutating and set(av) != set(bv):
@@ -787,6 +865,25 @@ class C20(Prop):
                     V("expression_applied", f"expression levels {want_expr} after {r['line']!r}", f"{a['expr']}", idx)
             elif op not in ("add", "replicate", "new", "fromdict") and not raised and a["expr"] != b["expr"]:
                 V("expression_applied", f"expression levels untouched by {r['line']!r}", f"{b['expr']} -> {a['expr']}", idx)
+
+            # (G) an assignment to a public attribute is just that: afterwards the attribute reads as assigned, no
+            # callback was consulted, nothing was logged (values / hash / log / expression are covered by (A), (E0))
+            if op in ("setallow", "setcb", "setrate") and not raised and r.get("res") == "ok":
+                want = dict(allow=b["allow"], cb=b["cb"], rate=b["rate"])
+                t_ = r["line"].split()
+                if op == "setallow":
+                    want["allow"] = t_[2] == "1"
+                elif op == "setcb":
+                    want["cb"] = "none" if t_[2] == "none" else str(nat(t_[2]))
+                else:
+                    want["rate"] = t_[2] == "1"
+                got = dict(allow=a["allow"], cb=a["cb"], rate=a["rate"])
+                if got != want or calls:
+                    V("assignment_exact", f"settings {want}, no callback call", f"{got}, calls {len(calls)}", idx)
+            elif op not in ("new", "fromdict", "replicate") and not raised and \
+                    (a["allow"], a["cb"], a["rate"]) != (b["allow"], b["cb"], b["rate"]):
+                V("assignment_exact", f"gate settings untouched by {r['line']!r}",
+                  f"{(b['allow'], b['cb'], b['rate'])} -> {(a['allow'], a['cb'], a['rate'])}", idx)
 
             # (E) express: exactly the non-silenced, non-dormant genes, conditional ones only when named
             if op == "express" and not raised and "config" in r:
